@@ -254,6 +254,12 @@ func (p *notifier) Run() error {
 				return nil
 			}
 
+			// Do not retry events that are done: the receiver reported a fatal error or the retry budget is spent.
+			// They stay on the shelf as failed events.
+			if event.Retries >= maxRetries {
+				return nil
+			}
+
 			readyToRetry = append(readyToRetry, event)
 			return nil
 		}, stoabs.BytesKey{})
